@@ -6,6 +6,7 @@ import (
 
 	"verif/gen"
 	"verif/model"
+	"verif/model/globexp"
 	"verif/proj"
 	"verif/run"
 )
@@ -30,7 +31,7 @@ func init() {
 	run.Register(&run.Check{
 		ID: "C12", Title: "Globs apply to exactly the matching objects and connections, even later ones",
 		LevelText: "Exploration: for every generated program with 1–4 glob statements (*, affix patterns, **, ***, filters, connection-creating and connection-reference globs, nested scopes, layers; names with ASCII and non-ASCII case pairs) the monitor compiles the program and the glob-free twin produced by a reference matcher/expander and requires equal projections (multiset per board).",
-		Technique: "runtime monitoring: metamorphic oracle compile(P) = compile(expand(P)) with an independent reference glob matcher and expansion model (model/glob.go)",
+		Technique: "runtime monitoring: metamorphic oracle compile(P) = compile(expand(P)) with an independent reference glob matcher and expansion model (model/glob.go, model/globexp)",
 		DesignRef: "§4 C12",
 		Rule:      "cases: gen.GlobProgram (structured AST rendered in the worker); distinct by sha256 of the rendered text; non-trivial when the program was judged (inside the judged fragment, both compilations succeeded) and the reference expansion applied globs to ≥1 later-created target or ≥2 existing targets or created/updated ≥1 connection",
 		Chunk:     32,
@@ -54,14 +55,14 @@ func genC12(seed int64, tier string, emit func(run.Case)) {
 
 type c12Verdict struct {
 	clause, detail string
-	info           model.GlobInfo
+	info           globexp.GlobInfo
 	vacuous        string
 	textP, textT   string
 	piP            string
 }
 
 func c12Judge(prog []*gen.LStmt, match func(string, string) bool) (v c12Verdict) {
-	twin, info := model.Expand(prog, match)
+	twin, info := globexp.Expand(prog, match)
 	v.info = info
 	v.textP, v.textT = gen.LRender(prog), gen.LRender(twin)
 	gP, _, errP := compile(v.textP)
@@ -94,7 +95,7 @@ func c12Judge(prog []*gen.LStmt, match func(string, string) bool) (v c12Verdict)
 }
 
 // c12Sig names the trigger on the shrunk witness. Most specific first; the named triggers are
-// predicates evaluated by the reference expander on the witness (model.GlobInfo.Feat) or by
+// predicates evaluated by the reference expander on the witness (globexp.GlobInfo.Feat) or by
 // re-judging it under a deliberately defective matcher ("does this defect explain d2?").
 func c12Sig(prog []*gen.LStmt, v c12Verdict) string {
 	if v.clause == "C12.expansion-differs" {
